@@ -195,6 +195,12 @@ def r_clear(mod, rep, R='R13.4'):
     ok = len(ps) == 1 and ps[0][0].ret in wants
     rep.check(ok, R, w, 'Functor:clear_features', 'a functor is rebuilt with the same slash from the erased left and right sides',
               'Functor.%s returns %s' % (meth, show(ps[0][0].ret) if ps and ps[0][0].ret else '?'))
+    r_functor_builders(mod, rep, R)
+
+
+def r_functor_builders(mod, rep, R='R13.4'):
+    """the two ways the package rebuilds a functor: x.functor(l, r) keeps x's own slash; the operators / and | build the
+    forward and the backward functor"""
     fn = mod.get('Functor.functor')
     w = '%s:%s Functor.functor' % (REL, fn.lineno)
     lam = [n for n in ast.walk(fn) if isinstance(n, ast.Lambda)]
